@@ -358,7 +358,7 @@ static void op_set(toks *t)
     } else if (!strcmp(op, "setbool")) {
         int v = (int)tk_int(T(2)), r;
         LIB_BEGIN("cJSON_SetBoolValue"); r = cJSON_SetBoolValue(o, v); LIB_END();
-        rlog("%d", r);
+        rlog("%d", r & 0xFF);     /* the type proper; which ownership flag bits ride along is not part of any property */
     } else if (!strcmp(op, "setstr")) {
         char *s = tk_str(T(2)), *r;
         LIB_BEGIN("cJSON_SetValuestring"); r = cJSON_SetValuestring(o, s); LIB_END();
@@ -549,6 +549,36 @@ static void op_utils(toks *t)
         if (tk_int(T(2))) { LIB_BEGIN("cJSONUtils_SortObjectCaseSensitive"); cJSONUtils_SortObjectCaseSensitive(tk_item(T(1))); LIB_END(); }
         else { LIB_BEGIN("cJSONUtils_SortObject"); cJSONUtils_SortObject(tk_item(T(1))); LIB_END(); }
         rlog("v");
+    } else if (!strcmp(op, "sortvia")) {  /* sortvia mode s cs : utilities that sort their arguments internally (C19) */
+        cJSON *o, *d = NULL, *r = NULL;
+        int cs, st = 0;
+        const char *mode;
+        ARGN(3);
+        mode = T(1); o = tk_item(T(2)); cs = (int)tk_int(T(3));
+        LIB_BEGIN("cJSON_Duplicate"); d = cJSON_Duplicate(o, 1); LIB_END();
+        if (!strcmp(mode, "genp")) {
+            if (cs) { LIB_BEGIN("cJSONUtils_GeneratePatchesCaseSensitive"); r = cJSONUtils_GeneratePatchesCaseSensitive(o, d); LIB_END(); }
+            else { LIB_BEGIN("cJSONUtils_GeneratePatches"); r = cJSONUtils_GeneratePatches(o, d); LIB_END(); }
+            st = r ? cJSON_GetArraySize(r) : -1;
+        } else if (!strcmp(mode, "genm")) {
+            if (cs) { LIB_BEGIN("cJSONUtils_GenerateMergePatchCaseSensitive"); r = cJSONUtils_GenerateMergePatchCaseSensitive(o, d); LIB_END(); }
+            else { LIB_BEGIN("cJSONUtils_GenerateMergePatch"); r = cJSONUtils_GenerateMergePatch(o, d); LIB_END(); }
+            st = r ? 1 : 0;
+        } else {                             /* patch "test" of the whole document against its copy */
+            cJSON *patch, *one;
+            LIB_BEGIN("build-test-patch");
+            patch = cJSON_CreateArray(); one = cJSON_CreateObject();
+            cJSON_AddItemToObject(one, "op", cJSON_CreateString("test"));
+            cJSON_AddItemToObject(one, "path", cJSON_CreateString(""));
+            cJSON_AddItemToObject(one, "value", d); d = NULL;
+            cJSON_AddItemToArray(patch, one);
+            LIB_END();
+            if (cs) { LIB_BEGIN("cJSONUtils_ApplyPatchesCaseSensitive"); st = cJSONUtils_ApplyPatchesCaseSensitive(o, patch); LIB_END(); }
+            else { LIB_BEGIN("cJSONUtils_ApplyPatches"); st = cJSONUtils_ApplyPatches(o, patch); LIB_END(); }
+            r = patch;
+        }
+        LIB_BEGIN("cJSON_Delete"); cJSON_Delete(r); cJSON_Delete(d); LIB_END();
+        rlog("sortvia %d", st);
     } else if (!strcmp(op, "addpatch")) { /* addpatch arr op path val */
         char *o, *p; ARGN(4);
         o = tk_str(T(2)); p = tk_str(T(3));
@@ -627,7 +657,7 @@ static const opent optab[] = {
     {"is", op_query}, {"gsv", op_query}, {"gnv", op_query},
     {"parse", op_parse}, {"print", op_print}, {"text", op_text}, {"dup", op_dup}, {"cmp", op_cmp},
     {"getp", op_utils}, {"findp", op_utils}, {"patch", op_utils}, {"genp", op_utils}, {"merge", op_utils}, {"genm", op_utils},
-    {"sort", op_utils}, {"addpatch", op_utils}, {"order", op_utils},
+    {"sort", op_utils}, {"sortvia", op_utils}, {"addpatch", op_utils}, {"order", op_utils},
     {"mv", op_slot}, {"clr", op_slot}, {"child", op_slot}, {"build", op_slot}, {"settype", op_slot}, {"setchild", op_slot},
     {"cfg", op_cfg}, {"onfail", op_onfail}, {"onok", op_onok},
     {"pbat", op_pbat}, {"pstack", op_pstack}, {"prbat", op_prbat}, {"minify", op_minify}, {"dupx", op_dupx}, {"cmpx", op_cmpx},
